@@ -43,3 +43,10 @@ Definition c15_sw_item_ok (it : ritem) : bool :=
     match e with EUnit _ => true | EAlgebraic tag _ _ => c15_plain C15sw tag end
   | ItAlias _ | ItConst _ => true
   end.
+
+(* ---- whole files ----
+   the header prints the version inside a block comment (which nests in Swift): no star and no slash in it;
+   the trailer is the helper struct CodableVoid, printed under a comment typeshare writes itself when () was translated *)
+Definition c15_sw_version_ok (v : str) : bool := forallb (fun c => negb (c =? ch_star) && negb (c =? ch_slash)) v.
+Definition c15_sw_trailer_docs : list str :=
+  [lit "() isn't codable, so we use this instead to represent Rust's unit type"].
